@@ -335,6 +335,13 @@ class Peer:
             self.neighbor.rib.outgoing.resend(enhanced, family)
         self._delay.reset()
 
+    def _apply_pending_reload(self) -> None:
+        # A reload the main loop has not applied yet is about to be replaced by the next one: apply its route
+        # difference now (the routes it removed from the configuration were otherwise never withdrawn)
+        if self._neighbor is not None and self._neighbor.previous is not None and self.neighbor.rib:
+            self.neighbor.rib.outgoing.replace_reload(self._neighbor.previous.routes, self._neighbor.routes)
+            self._neighbor.previous = None
+
     def reestablish(self, restart_neighbor: 'Neighbor' | None = None) -> None:
         # we want to tear down the session and re-establish it
         self._teardown = 3
@@ -345,6 +352,7 @@ class Peer:
 
     def reconfigure(self, restart_neighbor: 'Neighbor' | None = None) -> None:
         # we want to update the route which were in the configuration file
+        self._apply_pending_reload()
         self._neighbor = restart_neighbor
         # Update self.neighbor immediately so API processes see the new configuration
         # during RELOAD (SIGUSR1), not just during connection reset
